@@ -214,3 +214,10 @@ impl std::fmt::Display for Error {
         }
     }
 }
+
+#[cfg(basic_lang_verif)]
+impl Error {
+    pub fn verif_code(&self) -> u16 {
+        self.code
+    }
+}
